@@ -20,7 +20,7 @@ KWPROGS = ['bool_ops', 'bool_ne_ge', 'select_many_where', 'where_and', 'nav_wher
 
 def conditions(tier, seed):
     t = 600 if tier == 'quick' else 6000
-    out = [Cond('parse', 'c08_parse.py', {}, timeout=t, bound='43 bodies x 3 keyword case styles', case_split=['pi', 'si'],
+    out = [Cond('parse', 'c08_parse.py', {}, timeout=t, bound='47 bodies x 3 keyword case styles', case_split=['pi', 'si'],
                 realised=['program text'])]
     names = [n for n, _ in oalprogs.PROGRAMS]
     for n in names:
